@@ -252,8 +252,13 @@ class DirectedOverflowWatch:
             def wrapper(ctx, *a, _orig=orig, **k):
                 r = _orig(ctx, *a, **k)
                 try:
-                    if r.overflow and ctx.rm not in watch.nearest:
-                        watch.hit = True
+                    if ctx.rm not in watch.nearest:
+                        # an operand beyond the largest finite value: IEEE 754 (and FPy) return the largest finite value
+                        # or an infinity depending on direction -- with or without raising the overflow flag -- while
+                        # titanfp overflows to an infinity once |x| passes the round-to-nearest threshold
+                        x = a[0]
+                        if r.overflow or (not (getattr(x, 'isnan', False) or getattr(x, 'isinf', False)) and abs(x) > ctx.maxval()):
+                            watch.hit = True
                 except Exception:
                     pass
                 return r
